@@ -7,6 +7,7 @@
 (*   Mode "tri2" / "tri3"  triangle_area in 2-D / 3-D cells                *)
 (*        "ang"            triangle_angle on integer triangles             *)
 (*        "lin"            lines_intersection on an integer grid           *)
+(*        "formulas"       the real-valued formulas with free variables    *)
 (*        "sq"             LineWithinSquare: quadrilateral x start corner  *)
 (*                         x interior point x direction                    *)
 (***************************************************************************)
@@ -31,29 +32,33 @@ TriCells2 ==
   IF Thorough THEN {Tri2(8, 0, 6), Tri2(6, 0, 6), Tri2(8, 3, 6), Tri2(6, 0 - 2, 4), Tri2(8, 4, 6), Tri2(4, 7, 3)}
   ELSE {Tri2(8, 0, 6), Tri2(8, 3, 6), Tri2(6, 0 - 2, 4), Tri2(4, 7, 3)}
 TriCells3 ==
-  IF Thorough THEN {Tri3(4, 4, 4, 0, 0, 0), Tri3(4, 6, 4, 0, 0, 0), Tri3(4, 6, 4, 1, 0 - 2, 3), Tri3(6, 4, 4, 0 - 3, 1, 0 - 1)}
+  IF Thorough THEN {Tri3(4, 6, 4, 0, 0, 0), Tri3(4, 6, 4, 1, 0 - 2, 3), Tri3(6, 4, 4, 0 - 3, 1, 0 - 1)}
   ELSE {Tri3(4, 6, 4, 0, 0, 0), Tri3(4, 6, 4, 1, 0 - 2, 3)}
-TriFirst2 == {<<0, 0>>, <<1, 2>>}
+TriMasks(d) == IF d = 2 \/ Thorough THEN [1..d -> {0, 1}] ELSE {<<1, 1, 1>>, <<1, 0, 1>>}
+TriFirst2 == IF Thorough THEN {<<0, 0>>, <<1, 2>>} ELSE {<<1, 2>>}
 TriFirst3 == {<<0, 1, 0>>}
-TriPts2 == IF Thorough THEN [1..2 -> (0 - 4)..9] ELSE {<<a, b>> : a \in {0 - 3, 0, 2, 4, 5, 9}, b \in {0 - 2, 1, 3, 4, 7}}
-TriPts3 == IF Thorough THEN [1..3 -> {0 - 3, 0 - 1, 0, 2, 3, 5}] ELSE [1..3 -> {0 - 3, 0, 2, 5}]
+TriPts2 == IF Thorough THEN {<<a, b>> : a \in {0 - 3, 0, 2, 4, 5, 9}, b \in {0 - 2, 1, 3, 4, 7}}
+           ELSE {<<a, b>> : a \in {0 - 3, 2, 4, 9}, b \in {0 - 2, 3, 7}}
+TriPts3 == IF Thorough THEN [1..3 -> {0 - 3, 0, 2, 5}] ELSE [1..3 -> {0 - 3, 2, 5}]
+TriPts3b == IF Thorough THEN TriPts3 ELSE {<<a, b, 2>> : a \in {0 - 3, 2, 5}, b \in {0 - 3, 2, 5}}
 TriScope(d) ==
   LET Cs == IF d = 2 THEN TriCells2 ELSE TriCells3
       F  == IF d = 2 THEN TriFirst2 ELSE TriFirst3
       Ps == IF d = 2 THEN TriPts2 ELSE TriPts3
-  IN  {[H |-> h, ppp |-> m, P |-> <<p1, p2, p3>>] : h \in Cs, m \in [1..d -> {0, 1}], p1 \in F, p2 \in Ps, p3 \in Ps}
-TriKey(s) == SumSeq(s.P[2]) + 3 * SumSeq(s.P[3]) + 64
+      Pt == IF d = 2 THEN TriPts2 ELSE TriPts3b
+  IN  {[k |-> IF d = 2 THEN "tri2" ELSE "tri3", H |-> h, ppp |-> m, P |-> <<p1, p2, p3>>] : h \in Cs, m \in TriMasks(d), p1 \in F, p2 \in Ps, p3 \in Pt}
+TriKey(s) == s.P[2][1] + 3 * s.P[2][2] + 7 * s.P[3][1] + 13 * s.P[3][2] + 5 * s.ppp[1] + 11 * s.H[2][1] + Len(s.ppp) * (s.P[2][Len(s.ppp)] + 2) + 256
 
 \* ------------------------------------------------------------------ ang
 AngK == IF Thorough THEN 24 ELSE 11
-AngScope == {[a |-> a, b |-> b, c |-> c] : a \in 1..AngK, b \in 1..AngK, c \in 1..AngK}
+AngScope == {[k |-> "ang", a |-> a, b |-> b, c |-> c] : a \in 1..AngK, b \in 1..AngK, c \in 1..AngK}
 AngKey(s) == s.a + s.b + s.c
 
 \* ------------------------------------------------------------------ lin
 LinG  == IF Thorough THEN [1..2 -> (0 - 2)..2] ELSE [1..2 -> (0 - 1)..2]
-LinG2 == IF Thorough THEN [1..2 -> (0 - 2)..2] ELSE [1..2 -> {0 - 1, 0, 2}]
-LinScope == {[A |-> a, B |-> b, C |-> c, E |-> e] : a \in LinG, b \in LinG, c \in LinG2, e \in LinG2}
-LinKey(s) == s.A[1] + 2 * s.A[2] + 3 * s.B[1] + 5 * s.B[2] + s.C[1] + s.E[2] + 64
+LinG2 == IF Thorough THEN [1..2 -> (0 - 2)..2] ELSE {<<0 - 1, 0 - 1>>, <<0, 2>>, <<2, 0>>, <<1, 1>>, <<2, 2>>, <<0 - 1, 1>>}
+LinScope == {[k |-> "lin", A |-> a, B |-> b, C |-> c, E |-> e] : a \in LinG, b \in LinG, c \in LinG2, e \in LinG2}
+LinKey(s) == s.A[1] + 2 * s.A[2] + 3 * s.B[1] + 5 * s.B[2] + 7 * s.C[1] + 11 * s.E[2] + 64
 
 \* ------------------------------------------------------------------ sq
 Rect(ox, oy, w, h) == << <<ox, oy>>, <<ox + w, oy>>, <<ox + w, oy + h>>, <<ox, oy + h>> >>
@@ -71,64 +76,73 @@ SqInside(Qd) ==
   LET xs == {Qd[k][1] : k \in 1..4}
       ys == {Qd[k][2] : k \in 1..4}
   IN  {r \in [1..2 -> SetMin(xs \cup ys)..SetMax(xs \cup ys)] : StrictlyInside(Qd, r)}
-SqScope == {[Q |-> Rot(q, s), s |-> s, R0 |-> r, u |-> u] : q \in SqQuads, s \in 0..3, r \in UNION {SqInside(qq) : qq \in SqQuads}, u \in SqDirs}
-SqKey(s) == s.u[1] + 7 * s.u[2] + s.R0[1] + 3 * s.R0[2] + 128
+SqScope == {[k |-> "sq", Q |-> Rot(q, s), s |-> s, R0 |-> r, u |-> u] : q \in SqQuads, s \in 0..3, r \in UNION {SqInside(qq) : qq \in SqQuads}, u \in SqDirs}
+SqKey(s) == s.u[1] + 7 * s.u[2] + 5 * s.R0[1] + 3 * s.R0[2] + s.s + 128
 
 \* ------------------------------------------------------------------ state space
-Scope == CASE Mode = "tri2" -> TriScope(2)
-           [] Mode = "tri3" -> TriScope(3)
-           [] Mode = "ang"  -> {s \in AngScope : IsTriangle(s.a, s.b, s.c)}
-           [] Mode = "lin"  -> {s \in LinScope : s.A # s.B /\ s.C # s.E /\ LinD(s.A, s.B, s.C, s.E) # 0}
-           [] Mode = "sq"   -> {s \in SqScope : StrictlyInside(s.Q, s.R0)}
-Key(s) == CASE Mode \in {"tri2", "tri3"} -> TriKey(s)
-            [] Mode = "ang" -> AngKey(s)
-            [] Mode = "lin" -> LinKey(s)
-            [] Mode = "sq"  -> SqKey(s)
+KindScope(kd) ==
+  CASE kd = "formulas" -> {[k |-> "formulas"]}
+    [] kd = "tri2" -> TriScope(2)
+    [] kd = "tri3" -> TriScope(3)
+    [] kd = "ang"  -> {s \in AngScope : IsTriangle(s.a, s.b, s.c)}
+    [] kd = "lin"  -> {s \in LinScope : s.A # s.B /\ s.C # s.E /\ LinD(s.A, s.B, s.C, s.E) # 0}
+    [] kd = "sq"   -> {s \in SqScope : StrictlyInside(s.Q, s.R0)}
+AllKinds == {"formulas", "tri2", "tri3", "ang", "lin", "sq"}
+Kinds == IF Mode = "all" THEN AllKinds ELSE IF Mode = "small" THEN {"formulas", "ang", "lin"} ELSE {Mode}
+Key(s) == CASE s.k = "formulas" -> 0
+            [] s.k \in {"tri2", "tri3"} -> TriKey(s)
+            [] s.k = "ang" -> AngKey(s)
+            [] s.k = "lin" -> LinKey(s)
+            [] s.k = "sq"  -> SqKey(s)
 
-Init == x \in Scope /\ Key(x) % NSHARDS = SHARD
+Init == \E kd \in Kinds : x \in KindScope(kd) /\ Key(x) % NSHARDS = SHARD
 Next == UNCHANGED vars
 Spec == Init /\ [][Next]_vars
 
-IsTri == Mode \in {"tri2", "tri3"}
+IsTri == x.k \in {"tri2", "tri3"}
 \* ---- clauses: triangle_area
 InvHeronIsCross     == IsTri => HeronIsCrossWhenClosed(x.H, x.P, x.ppp)
 InvRadicandOrtho    == IsTri => RadicandNonNegOrthogonal(x.H, x.P, x.ppp)
 InvClosesWithoutPbc == IsTri => ClosesWithoutPbc(x.H, x.P, x.ppp)
 InvTriPermutation   == IsTri => PermutationInvariantOffTies(x.H, x.P, x.ppp)
 \* ---- clauses: triangle_angle
-InvCosInRange    == Mode = "ang" => CosInRange(x.a, x.b, x.c) /\ CosInRange(x.b, x.c, x.a) /\ CosInRange(x.a, x.c, x.b)
-InvAnglesSumToPi == Mode = "ang" => AnglesSumToPi(x.a, x.b, x.c)
-InvRightAngle    == Mode = "ang" => ((x.a * x.a + x.b * x.b = x.c * x.c) <=> AngleClosedForm(x.a, x.b, x.c) = "right")
+InvCosInRange    == x.k = "ang" => CosInRange(x.a, x.b, x.c) /\ CosInRange(x.b, x.c, x.a) /\ CosInRange(x.a, x.c, x.b)
+InvAnglesSumToPi == x.k = "ang" => AnglesSumToPi(x.a, x.b, x.c)
+InvRightAngle    == x.k = "ang" => ((x.a * x.a + x.b * x.b = x.c * x.c) <=> AngleClosedForm(x.a, x.b, x.c) = "right")
 \* ---- clauses: lines_intersection
-InvOnBothLines   == Mode = "lin" => PointOnBothLines(x.A, x.B, x.C, x.E)
-InvSwapSymmetric == Mode = "lin" => SwapSymmetric(x.A, x.B, x.C, x.E)
+InvOnBothLines   == x.k = "lin" => PointOnBothLines(x.A, x.B, x.C, x.E)
+InvSwapSymmetric == x.k = "lin" => SwapSymmetric(x.A, x.B, x.C, x.E)
 \* ---- clauses: LineWithinSquare
-InvQuadConvex    == Mode = "sq" => ConvexCCW(x.Q)
-InvExitAdjacent  == Mode = "sq" => ExitOneOrTwoAdjacent(x.Q, x.R0, x.u)
-InvExitSamePoint == Mode = "sq" => ExitSamePointAtTies(x.Q, x.R0, x.u)
-InvExitOnBoundaryAndRay == Mode = "sq" => ExitOnBoundaryAndRay(x.Q, x.R0, x.u)
-InvOneWrapEdge   == Mode = "sq" => ExactlyOneWrapEdge(x.Q, x.R0)
-InvAtanAgrees    == Mode = "sq" => AtanAgreesWhenWrapIsLast(x.Q, x.R0, x.u)
-InvAtanDisagrees == Mode = "sq" => AtanDisagreesOtherwise(x.Q, x.R0, SqDirs)
+InvQuadConvex    == x.k = "sq" => ConvexCCW(x.Q)
+InvExitAdjacent  == x.k = "sq" => ExitOneOrTwoAdjacent(x.Q, x.R0, x.u)
+InvExitSamePoint == x.k = "sq" => ExitSamePointAtTies(x.Q, x.R0, x.u)
+InvExitOnBoundaryAndRay == x.k = "sq" => ExitOnBoundaryAndRay(x.Q, x.R0, x.u)
+InvOneWrapEdge   == x.k = "sq" => ExactlyOneWrapEdge(x.Q, x.R0)
+InvAtanAgrees    == x.k = "sq" => AtanAgreesWhenWrapIsLast(x.Q, x.R0, x.u)
+InvAtanDisagrees == x.k = "sq" => AtanDisagreesOtherwise(x.Q, x.R0, SqDirs)
 
 \* ---- emission (direction A)
 SgnI(n) == IF n < 0 THEN 0 - 1 ELSE IF n > 0 THEN 1 ELSE 0
 TriCase ==
   LET ws == SetToSeq(TriWrapped(x.H, x.P, x.ppp)) IN
-  [ m |-> Mode, H |-> x.H, ppp |-> x.ppp, P |-> x.P,
+  [ m |-> x.k, H |-> x.H, ppp |-> x.ppp, P |-> x.P,
     tie |-> \E k \in 1..3 : HasTie(x.H, TriDiffs(x.P)[k], x.ppp),
     adm |-> [i \in 1..Len(ws) |->
                [ s2 |-> Side2(ws[i]), closes |-> Closes(ws[i]), sign |-> SgnI(Heron16(Side2(ws[i]))),
-                 h16 |-> Heron16(Side2(ws[i])),
-                 rad |-> HeronRadicand(Side2(ws[i]), 1), area |-> HeronTerm(Side2(ws[i]), 1) ]] ]
-AngSide(n) == Div(I(n), Var("S"))
+                 h16 |-> Heron16(Side2(ws[i])) ]] ]
 AngCase ==
   [ m |-> "ang", a |-> x.a, b |-> x.b, c |-> x.c, cos |-> AngleCos(x.a, x.b, x.c),
-    closed |-> AngleClosedForm(x.a, x.b, x.c),
-    closedterm |-> IF AngleClosedForm(x.a, x.b, x.c) = "" THEN NaNT ELSE ClosedFormTerm(AngleClosedForm(x.a, x.b, x.c)),
-    C |-> AngleTerm(AngSide(x.a), AngSide(x.b), AngSide(x.c)),
-    A |-> AngleTerm(AngSide(x.b), AngSide(x.c), AngSide(x.a)),
-    B |-> AngleTerm(AngSide(x.a), AngSide(x.c), AngSide(x.b)) ]
+    closed |-> <<AngleClosedForm(x.b, x.c, x.a), AngleClosedForm(x.a, x.c, x.b), AngleClosedForm(x.a, x.b, x.c)>> ]
+\* the real-valued expectations: one formula per routine, its free variables are bound per case to the
+\* data TLC decided (squared side lengths s1..s3 in units 1/S^2; side lengths a, b, c)
+Formulas ==
+  [ m |-> "formulas",
+    tri_rad  |-> HeronRadicandT(Div(Sqrt(Var("s1")), Var("S")), Div(Sqrt(Var("s2")), Var("S")), Div(Sqrt(Var("s3")), Var("S"))),
+    tri_area |-> Sqrt(HeronRadicandT(Div(Sqrt(Var("s1")), Var("S")), Div(Sqrt(Var("s2")), Var("S")), Div(Sqrt(Var("s3")), Var("S")))),
+    angle    |-> AngleTerm(Var("a"), Var("b"), Var("c")),
+    closed   |-> [right |-> ClosedFormTerm("right"), equi |-> ClosedFormTerm("equi"),
+                  flat |-> ClosedFormTerm("flat"), zero |-> ClosedFormTerm("zero")],
+    pi       |-> Pi ]
 LinCase ==
   [ m |-> "lin", A |-> x.A, B |-> x.B, C |-> x.C, E |-> x.E, D |-> LinD(x.A, x.B, x.C, x.E),
     pt |-> LinPoint(x.A, x.B, x.C, x.E) ]
@@ -137,6 +151,6 @@ SqCase ==
     edges |-> ExitEdges(x.Q, x.R0, x.u), pt |-> ExitPoint(x.Q, x.R0, x.u),
     wrap |-> WrapEdges(x.Q, x.R0),
     atan |-> <<AtanEdge(x.Q, x.R0, x.u, FALSE), AtanEdge(x.Q, x.R0, x.u, TRUE)>> ]
-Emit == PrintT(ToJson(CASE IsTri -> TriCase [] Mode = "ang" -> AngCase
-                        [] Mode = "lin" -> LinCase [] Mode = "sq" -> SqCase))
+Emit == PrintT(ToJson(CASE x.k = "formulas" -> Formulas [] IsTri -> TriCase [] x.k = "ang" -> AngCase
+                        [] x.k = "lin" -> LinCase [] x.k = "sq" -> SqCase))
 =============================================================================
